@@ -214,6 +214,13 @@ func (fx *FuncCtx) define(prefix, sortName, term string) string {
 	}
 	n := fx.fresh(prefix)
 	fx.symLine[n] = len(fx.lines)
+	if strings.HasPrefix(sortName, "(Array ") {
+		// heap components stay constants (not macros): they occur in quantifier
+		// patterns, where an expanded ite/and would make the pattern illegal
+		fx.emit(fmt.Sprintf("(declare-const %s %s)", n, sortName))
+		fx.emit(fmt.Sprintf("(assert (= %s %s))", n, term))
+		return n
+	}
 	fx.emit(fmt.Sprintf("(define-fun %s () %s %s)", n, sortName, term))
 	return n
 }
